@@ -206,7 +206,8 @@ def _mk_details(ctx, tag, names, site):
 
 
 def do_assert(case, ctx, site, action):
-    d = _mk_details(ctx, "A", ("foo", "traceback"), site)
+    # (the mismatch's own names collide with each other's renamings: foo / foo-1)
+    d = _mk_details(ctx, "A", ("foo", "foo-1", "traceback"), site)
     marker = "%s!assertThat" % site
     ctx.raised.append((site, pg.FAIL, marker))
     ctx.extra.setdefault("exc_markers", []).append(None)  # MismatchError text has no marker of ours
